@@ -73,9 +73,9 @@ impl<'a, N: Normalizer> XmlSerializer<'a, N> {
     ) -> Result<(), Error> {
         let data = self.render_output(node, &output)?;
         if data.space {
-            w.write_all(b" ").unwrap();
+            w.write_all(b" ")?;
         }
-        w.write_all(data.text.as_bytes()).unwrap();
+        w.write_all(data.text.as_bytes())?;
         Ok(())
     }
 
